@@ -40,14 +40,14 @@ instance [LT α] [DecidableLT α] : DecidableLT (NV α) := fun a b =>
 instance [HasInf α] : HasInf (NV α) := ⟨.val pinf, .val ninf⟩
 
 /-- `math.Min` -/
-instance [Min α] [HasInf α] [DecidableEq α] : Min (NV α) := ⟨fun a b =>
+instance instMin [Min α] [HasInf α] [DecidableEq α] : Min (NV α) := ⟨fun a b =>
   if a = .val ninf ∨ b = .val ninf then .val ninf
   else match a, b with
     | .val x, .val y => .val (min x y)
     | _, _ => .nan⟩
 
 /-- `math.Max` -/
-instance [Max α] [HasInf α] [DecidableEq α] : Max (NV α) := ⟨fun a b =>
+instance instMax [Max α] [HasInf α] [DecidableEq α] : Max (NV α) := ⟨fun a b =>
   if a = .val pinf ∨ b = .val pinf then .val pinf
   else match a, b with
     | .val x, .val y => .val (max x y)
